@@ -1128,19 +1128,44 @@ def monitors(hist, obs, which):
     return bad
 
 
+def stale_topics_at(ob):
+    """C08_recovery_within_budget's measure on the implementation: the distinct topics among the payloads that have a
+    cached leader differing from the true one (the cluster's leader table of this attempt) when the retries start"""
+    op = ob["op"]
+    leaders = (op.get("plan") or {}).get("leaders") or {}
+    topics = set(k[0] for k in op["payloads"])
+    return sorted(set(k[0] for k, v in ob["before"]["t2b"].items()
+                      if k[0] in topics and v is not None and leaders.get("%d:%d" % k) != v[0]))
+
+
 def mon_recovery(hist, obs):
-    """C08_recovery_partial end to end: after the last fault, with an honest cluster, at most ONE attempt fails"""
+    """C08_recovery_within_budget end to end on the real client: after the last fault, against the honest cluster, the
+    attempts that fail with a broker error number at most the distinct stale topics among the payloads (at most one if
+    errors are delivered instead of raised; one for a stale coordinator); a dead broker costs at most one more attempt
+    (its failed send empties the cache)"""
     idx = [i for i, ob in enumerate(obs) if ob["op"].get("retry") is not None]
-    fails = 0
+    if not idx:
+        return []
+    fails, send_failures = 0, 0
     for i in idx:
         if attempt_ok(obs[i]):
             break
         fails += 1
+        if obs[i]["result"]["kind"] == "failed":
+            send_failures += 1
     else:
-        return [(idx[-1] if idx else -1, "C08_recovery_partial", "no attempt succeeded after the last fault",
+        return [(idx[-1], "C08_recovery_within_budget", "no attempt succeeded after the last fault",
                  [obs[i]["result"] for i in idx])]
-    if fails > hist.get("failover_bound", 1):
-        return [(idx[0], "C08_recovery_partial", "more failed attempts after the last fault than stale topics", fails, hist.get("failover_bound", 1),
+    first = obs[idx[0]]
+    op = first["op"]
+    if op.get("group") is not None:
+        bound = 1
+    else:
+        stale = stale_topics_at(first)
+        bound = len(stale) if op["fail"] else min(1, len(stale))
+    if fails - send_failures > bound or send_failures > 1 or fails > hist.get("failover_bound", 1) + 1:
+        return [(idx[0], "C08_recovery_within_budget", "more failed attempts after the last fault than stale topics",
+                 {"failed_attempts": fails, "of_which_failed_sends": send_failures, "stale_topic_bound": bound},
                  [obs[i]["result"] for i in idx])]
     return []
 
@@ -1262,6 +1287,9 @@ def run_batch(ck, label, hists, monitor, theorems):
         stats(ck, h, obs)
         if "failover_from" in h:
             ck.hist("failover_failed_attempts_%d" % failed_attempts(h, obs))
+            ridx = [i for i, ob in enumerate(obs) if ob["op"].get("retry") is not None]
+            if ridx and obs[ridx[0]]["op"].get("group") is None:
+                ck.hist("failover_stale_topics_at_first_retry_%d" % len(stale_topics_at(obs[ridx[0]])))
         cases.append(case)
         impl.append(trace)
         metas.append((h, bad, list(sim.monitor_notes)))
